@@ -180,7 +180,10 @@ func (t *tracer) SubscribeChannel(channel chan ITrace) chan ITrace {
 	case t.subscription <- sub:
 		<-okCh
 	case <-t.done:
-		// the tracer has terminated: nothing will ever be delivered
+		// the tracer has terminated: nothing will ever be delivered, so the
+		// channel is closed like those of the subscribers the tracer had
+		// when it terminated (a reader ranging over it must not wait forever)
+		close(channel)
 	}
 	return channel
 }
